@@ -11,12 +11,16 @@
  *     c = ZSTD_compressStream (returns the input size hint)   C = ZSTD_compressStream2(e_continue)
  *     f = e_flush     e = e_end (ends the frame wherever it is; a new frame starts with the next call)
  *     E = e_end if this call offers the last bytes of the source, else e_flush
+ *     x = ZSTD_endStream (legacy end: offers no input; returns its own estimate of what is left)   y = ZSTD_flushStream (no input)
+ *     X = ZSTD_endStream once the whole source has been consumed, else ZSTD_compressStream
  * Once an e_end call has returned non-zero, the following calls repeat e_end with only the input that call left unconsumed, until
  * the frame is complete.  When the whole source has been consumed every call is e_end.
  * Output: "cs", then per call:  [i<blockSize>/<inBuffSize>/<outBuffSize>/<inBuffTarget>] when the call initialised a frame,
  *   k<srcSize>:<cSize> (ZSTD_compressContinue_public) / K<srcSize>:<cSize> (ZSTD_compressEnd_public) for every chunk, in order,
  *   then <consumed>:<produced>:<ret> (ret = E<class> for an error);
  * finally rt=ok|FAIL (the emitted bytes decode to the consumed source) — not part of the tie.
+ * A frame whose end was requested through ZSTD_endStream is continued with ZSTD_endStream until it returns 0; more than
+ * 4*srcSize+4096 consecutive end calls print LIVELOCK and stop the history (the end directive never reported completion).
  * The history ends at an error, when a frame is complete and the source exhausted, after 40 consecutive calls without any
  * effect, or after 2000000 calls. */
 #include <stdio.h>
@@ -90,7 +94,7 @@ int main(void) {
             size_t ic[64], oc[64]; int ni = parse_list(ins, ic, 64), no = parse_list(outs, oc, 64), nd = dirs ? (int)strlen(dirs) : 0;
             unsigned char* in = (unsigned char*)malloc(n ? n : 1);
             size_t cap = ZSTD_compressBound(n) + (1u << 20), r = 0; unsigned char* out;
-            size_t consumed = 0, produced = 0, left = 0; long calls = 0; int idle = 0, ending = 0, done = 0, grown = 0; char* save = NULL; char* kv;
+            size_t consumed = 0, produced = 0, left = 0; long calls = 0; int idle = 0, ending = 0, done = 0, grown = 0, endLegacy = 0; size_t endCalls = 0; char* save = NULL; char* kv;
             gen_data(in, n, seed);
             out = (unsigned char*)malloc(cap);
             ZSTD_CCtx_reset(cctx, ZSTD_reset_session_and_parameters);
@@ -104,21 +108,24 @@ int main(void) {
                 size_t isz = ic[calls % ni], osz = oc[calls % no]; char dc = dirs[calls % nd]; ZSTD_inBuffer ib; ZSTD_outBuffer ob; ZSTD_EndDirective dir;
                 int const fresh = (cctx->streamStage == zcss_init); int wasEnd;
                 if (isz > n - consumed) isz = n - consumed;
-                if (ending) { isz = left; dc = 'e'; }
-                else if (consumed == n) dc = 'e';
+                if (dc == 'X') dc = (consumed == n) ? 'x' : 'c';
+                if (ending) { isz = left; dc = endLegacy ? 'x' : 'e'; }
+                else if (consumed == n && dc != 'x') dc = 'e';
+                if (dc == 'x' || dc == 'y') isz = 0;
                 if (dc == 'E') dc = (consumed + isz == n) ? 'e' : 'f';
-                dir = dc == 'f' ? ZSTD_e_flush : dc == 'e' ? ZSTD_e_end : ZSTD_e_continue;
+                dir = (dc == 'f' || dc == 'y') ? ZSTD_e_flush : (dc == 'e' || dc == 'x') ? ZSTD_e_end : ZSTD_e_continue;
                 if (produced + osz > cap) { /* flush storms: every tiny flush costs a block */
                     cap = 2 * cap + osz; out = (unsigned char*)realloc(out, cap); grown++; }
                 ib.src = in + consumed; ib.size = isz; ib.pos = 0; ob.dst = out + produced; ob.size = osz; ob.pos = 0;
-                r = (dc == 'c') ? ZSTD_compressStream(cctx, &ob, &ib) : ZSTD_compressStream2(cctx, &ob, &ib, dir); calls++;
+                r = (dc == 'c') ? ZSTD_compressStream(cctx, &ob, &ib) : (dc == 'x') ? ZSTD_endStream(cctx, &ob) : (dc == 'y') ? ZSTD_flushStream(cctx, &ob)
+                  : ZSTD_compressStream2(cctx, &ob, &ib, dir); calls++;
                 if (fresh) printf(" i%zu/%zu/%zu/%zu", cctx->blockSize, cctx->inBuffSize, cctx->outBuffSize, cctx->inBuffTarget);
                 if (ZSTD_isError(r)) { printf(" %zu:%zu:E%s", ib.pos, ob.pos, zv_errclass(r)); break; }
                 printf(" %zu:%zu:%zu", ib.pos, ob.pos, r);
                 consumed += ib.pos; produced += ob.pos; left = isz - ib.pos;
                 wasEnd = (dir == ZSTD_e_end);
-                if (wasEnd && r != 0) ending = 1;
-                if (wasEnd && r == 0) { ending = 0; if (consumed == n) done = 1; }
+                if (wasEnd && r != 0) { ending = 1; endLegacy = (dc == 'x'); if (++endCalls > 4 * n + 4096) { printf(" LIVELOCK"); break; } }
+                if (wasEnd && r == 0) { ending = 0; endCalls = 0; if (consumed == n) done = 1; }
                 if (ib.pos == 0 && ob.pos == 0 && !(wasEnd && r == 0)) { if (++idle >= 40) break; } else idle = 0;
             }
             /* the emitted bytes decode to exactly what was consumed (only meaningful when the last frame is complete) */
